@@ -561,8 +561,12 @@ def _ew2(op, x, y):
     else:
         def g(u, v):
             return cast_elem(f(u, v), rdt)
-    for idx in _np.ndindex(bx.shape):
-        out[idx] = g(bx[idx], by[idx])
+    core.ARRAY_CTX[0] = True
+    try:
+        for idx in _np.ndindex(bx.shape):
+            out[idx] = g(bx[idx], by[idx])
+    finally:
+        core.ARRAY_CTX[0] = False
     return ndarray(out, rdt)
 
 
